@@ -1286,6 +1286,199 @@ func genCase(r *vf.Rand, kind string, size int) Desc {
 	return d
 }
 
+// ---------------------------------------------------------------- directed families
+//
+// Situations that random scripts reach only rarely, each reachable by a single
+// wrong line in a reader:
+//   tail:  the LAST rows arrive together with EOF (or as a frame/batch larger
+//          than the destination) while the reader still holds a non-empty
+//          stash/buffer, and the run is read to its end with demands 1 or 2;
+//   big:   merge-based readers (cogroup, merge, reduce) over inputs of more
+//          than 128 rows with overlapping key sets, so that a FrameBuffer is
+//          refilled in the middle of gathering a key that another input still
+//          holds; and the 128-row internal vectors of Scanner, Fold and
+//          bufferOutput crossed several times.
+
+func scriptRows(s []Resp) int {
+	n := 0
+	for _, r := range s {
+		n += len(r.Rows)
+	}
+	return n
+}
+
+func constDemands(dm, n int) []int {
+	ops := make([]int, n)
+	for i := range ops {
+		ops[i] = dm
+	}
+	return ops
+}
+
+// genTail: variant v in 0..3; demands are all 1 (v even) or all 2 (v odd).
+func genTail(r *vf.Rand, kind string, v int) (Desc, bool) {
+	base := strings.TrimPrefix(kind, "bufout:")
+	noEofRows := base == "const" || base == "frame" || base == "taskbuf" || base == "decoding"
+	for try := 0; try < 200; try++ {
+		d := genCase(r.Split(), kind, try%2)
+		ok := len(d.Ins) > 0
+		total := 0
+		for i, in := range d.Ins {
+			// cut the script after its last response that carries rows; no failure
+			last := -1
+			for j, rs := range in {
+				if rs.K == "fail" {
+					break
+				}
+				if len(rs.Rows) > 0 {
+					last = j
+				}
+			}
+			if last < 0 || scriptRows(in[:last+1]) < 2 {
+				ok = false
+				break
+			}
+			in = append([]Resp(nil), in[:last+1]...)
+			if noEofRows {
+				in[last].K = "rows"
+				// the last frame / batch must exceed the demand
+				if len(in[last].Rows) < 3 && last > 0 {
+					merged := append(append([][]int64(nil), in[last-1].Rows...), in[last].Rows...)
+					in = append(in[:last-1], Resp{K: "rows", Rows: merged})
+				}
+			} else {
+				in[last].K = "eof"
+			}
+			d.Ins[i] = in
+			total += scriptRows(in)
+		}
+		if !ok || total > 40 {
+			continue
+		}
+		dm := 1 + v%2
+		switch base {
+		case "flatmap": // the expansion of the last row overflows the destination
+			fan := int64(2 + (v/2)%2)
+			d.P = []int64{0, fan}
+			if v%2 == 1 {
+				dm = int(fan) - 1
+			}
+		case "head": // the limit falls on, or just before, the last row
+			d.P = []int64{int64(total - v/2)}
+		case "scan", "scanbad":
+			return d, base == "scan"
+		}
+		d.Ops = constDemands(dm, 8+len(d.Ins)+7*total)
+		return d, true
+	}
+	return Desc{}, false
+}
+
+var bigDemands = []int{7, 64, 127, 128, 129, 200, 33, 256}
+
+func chunked(r *vf.Rand, rows [][]int64, maxChunk int, empties, eofRows bool) []Resp {
+	var s []Resp
+	for i := 0; i < len(rows); {
+		if empties && r.Chance(1, 6) {
+			s = append(s, Resp{K: "rows", Rows: [][]int64{}})
+			continue
+		}
+		n := r.Range(1, maxChunk)
+		if i+n > len(rows) {
+			n = len(rows) - i
+		}
+		s = append(s, Resp{K: "rows", Rows: rows[i : i+n]})
+		i += n
+	}
+	if eofRows && len(s) > 0 && len(s[len(s)-1].Rows) > 0 && r.Bool() {
+		s[len(s)-1].K = "eof"
+	}
+	return s
+}
+
+// genBigMerge: inputs of more than 128 rows with overlapping key sets.
+func genBigMerge(r *vf.Rand, kind string, v int) Desc {
+	d := Desc{Kind: kind, Schema: keyedSchemas[v%2]}
+	nA := r.Range(200, 300)
+	nB := r.Range(130, 300)
+	val := func(k int64) int64 { return k%7 + 1 }
+	var a, b, c [][]int64
+	switch kind {
+	case "cogroup": // unsorted inputs, repeated keys, arbitrary values
+		for i := 0; i < nA; i++ {
+			a = append(a, []int64{int64(i / 2), int64(r.Range(0, 40))})
+		}
+		for j := 0; j < nB; j++ {
+			b = append(b, []int64{int64((3 * j) % 150), int64(r.Range(0, 40))})
+		}
+		for j := 0; j < r.Range(0, 20); j++ {
+			c = append(c, []int64{int64(r.Range(0, 160)), int64(r.Range(0, 40))})
+		}
+		if v%2 == 1 { // the long input second
+			a, b = b, a
+		}
+	case "merge": // sorted, repeated keys, value determined by key
+		for i := 0; i < nA; i++ {
+			a = append(a, []int64{int64(i / 2), val(int64(i / 2))})
+		}
+		for j := 0; j < nB; j++ {
+			b = append(b, []int64{int64(3 * (j / 2)), val(int64(3 * (j / 2)))})
+		}
+		for j := 0; j < r.Range(0, 20); j++ {
+			c = append(c, []int64{int64(7 * j), val(int64(7 * j))})
+		}
+	default: // reduce: sorted, distinct keys within an input
+		for i := 0; i < nA; i++ {
+			a = append(a, []int64{int64(i), val(int64(i))})
+		}
+		for j := 0; j < nB; j++ {
+			b = append(b, []int64{int64(2 * j), val(int64(2 * j))})
+		}
+		for j := 0; j < r.Range(0, 20); j++ {
+			c = append(c, []int64{int64(5 * j), val(int64(5 * j))})
+		}
+	}
+	empties := kind == "cogroup"
+	d.Ins = [][]Resp{chunked(r, a, 140, empties, true), chunked(r, b, 140, empties, true)}
+	if len(c) > 0 || kind == "reduce" && v >= 2 {
+		d.Ins = append(d.Ins, chunked(r, c, 9, empties, true))
+	}
+	n := 24
+	if v == 0 { // small destinations: many refills between calls
+		d.Ops = constDemands(7, 8+(nA+nB+len(c))/7+8)
+		return d
+	}
+	for i := 0; i < n+(nA+nB)/7; i++ {
+		d.Ops = append(d.Ops, bigDemands[r.Intn(len(bigDemands))])
+	}
+	return d
+}
+
+func directed(r *vf.Rand, scale int) []Desc {
+	var ds []Desc
+	for _, k := range kinds {
+		if k == "scanbad" {
+			continue
+		}
+		for v := 0; v < 4*scale; v++ {
+			if d, ok := genTail(r.Split(), k, v%4); ok {
+				ds = append(ds, d)
+			}
+		}
+	}
+	for _, k := range []string{"cogroup", "merge", "reduce"} {
+		for v := 0; v < 4*scale; v++ {
+			ds = append(ds, genBigMerge(r.Split(), k, v%4))
+		}
+	}
+	for _, k := range []string{"scanner", "scan", "fold", "bufout:flatmap", "bufout:fold", "flatmap", "decoding"} {
+		for v := 0; v < 2*scale; v++ {
+			ds = append(ds, genCase(r.Split(), k, 2))
+		}
+	}
+	return ds
+}
+
 // allDemands enumerates every demand sequence of length <= 4 over {1,2,3}.
 func allDemands() [][]int {
 	var out [][]int
@@ -1309,7 +1502,8 @@ func main() {
 	opts := vf.ParseFlags()
 	out := &vf.Output{ID: "C17", Import: "BS.C17.Corr",
 		Rule: "scripted upstreams (chunk sizes, empty reads, rows together with EOF, failures) x PRNG demand sequences over " +
-			"{1,2,3,7,127,128,129,random} on sentinel-filled destinations, 24 reader kinds, 6 column schemas; " +
+			"{1,2,3,7,127,128,129,random} on sentinel-filled destinations, 24 reader kinds, 6 column schemas; plus directed families " +
+			"(last rows together with EOF read with demands 1/2 while a stash or buffer is non-empty; merge-based readers over inputs of >128 rows with overlapping keys; 128-row vectors crossed); " +
 			"non-trivial = at least two Read calls and at least one row delivered; distinct by case text",
 		Extra: map[string]interface{}{}}
 	var descs []Desc
@@ -1337,6 +1531,11 @@ func main() {
 				descs = append(descs, genCase(root.Split(), k, size))
 			}
 		}
+		dsc := opts.Scale
+		if opts.Tier == "thorough" {
+			dsc *= 5
+		}
+		descs = append(descs, directed(root.Split(), dsc)...)
 		if opts.Tier == "thorough" {
 			// exhaustive: every demand sequence of length <= 4 over {1,2,3} for scripts of <= 6 rows
 			seqs := allDemands()
